@@ -214,7 +214,7 @@ def run(ctx):
         "Locking-discipline rules the interleaving claim rests on: (R1) every server handler that reaches a mutating "
         "helper takes the account write guard exactly once and runs exactly one helper call (rewind+patch, "
         "merge+diff) on the storage behind it, and the helpers require &mut storage; (R3) read handlers never take the write guard; (R4, shared with C04) no "
-        "CheckedPatch is dropped. Deadlock freedom (lock-order acyclicity) could not be "
+        "CheckedPatch is dropped; (R5, shared with C04) a refused diff is reported to the pushing device as Comparison::Unknown; (R6, shared with C07) the rollback of a refused rewind re-applies the pruned records in append order. Deadlock freedom (lock-order acyclicity) could not be "
         "made exact with a type-level may-hold analysis and is NOT decided; outcomes over interleavings and convergence "
         "are not decided.")
     ctx.trust("tokio RwLock/Mutex semantics", "guard liveness read from StorageDead/Drop in mir_built")
@@ -225,12 +225,21 @@ def run(ctx):
     # scopes) reports cycles that reading shows to be infeasible, so it cannot
     # be made exact here (DESIGN.md, C09). Kept for exploration only.
     r3_readers_take_read_guards(ctx)
-    r4 = c04.r4_refused_patch_not_dropped
-    r4(ctx)
-    ctx.rules[-1].id = "C09-R4"
-    for inst in ctx.rules[-1].instances:
-        inst["rule"] = "C09-R4"
-        inst["key"] = inst["key"].replace("C04-R4|", "C09-R4|", 1)
+    def shared(fn, src_id, new_id):
+        fn(ctx)
+        ctx.rules[-1].id = new_id
+        for inst in ctx.rules[-1].instances:
+            inst["rule"] = new_id
+            inst["key"] = inst["key"].replace(src_id + "|", new_id + "|", 1)
+    shared(c04.r4_refused_patch_not_dropped, "C04-R4", "C09-R4")
+    # a sync that was refused must be *seen* as a conflict by the device that
+    # pushed it (else "each sync call ends in success or an explicit conflict"
+    # fails under the interleaving status | other device's sync | sync)
+    shared(c04.r4b_conflict_reported_as_unknown, "C04-R4b", "C09-R5")
+    # a patch refused after the rewind must leave the server log as it was:
+    # the rollback re-applies the pruned records in append order
+    from . import c07
+    shared(c07.r4_rollback_order, "C07-R4", "C09-R6")
     if ctx.tier == "thorough" and ctx.config == "workspace":
         from .. import witness
         witness.run(ctx, 'C09-W', 'mutating server helpers need the write guard (type level)', {'PatchNeedsWriteGuard': 'event_patch(req, &mut *read_guard)', 'SyncNeedsWriteGuard': 'sync_account(packet, &mut *read_guard)'})
